@@ -1,5 +1,6 @@
 (* C10 -- lemmas and proofs about the model of C10_Defs (exact rationals). *)
 From Coq Require Import List ZArith QArith Qminmax Bool Lia Lra Psatz Permutation Sorted Setoid Morphisms.
+From LNGen Require Import Src_c10.
 From LN Require Import C10_Defs.
 Import ListNotations.
 Local Open Scope Q_scope.
@@ -960,4 +961,569 @@ Proof.
     + intros c' T' Hc'. specialize (Hall c' _ Hc' (or_introl eq_refl)). destruct (dense_col_optimal no c') as (Hle' & _).
       pose proof (clamp_mono floor _ _ (Hle' T')). lra.
   - destruct cs as [|c cs]; [reflexivity|]. specialize (H c (or_introl eq_refl)). discriminate.
+Qed.
+
+(* ---- k-best / discrete-step tables ------------------------------------------------------------------------------------------ *)
+Lemma prefix_sums_in l : forall s x, In x (prefix_sums s l) -> exists k, (1 <= k <= length l)%nat /\ x == s + qsum (firstn k l).
+Proof.
+  induction l as [|d l IH]; intros s x H; [contradiction|]. cbn [prefix_sums] in H. destruct H as [<-|H].
+  - exists 1%nat. split; [cbn; lia|]. cbn [firstn]. rewrite qsum_cons, qsum_nil. ring.
+  - destruct (IH _ _ H) as (k & Hk & E). exists (S k). split; [cbn; lia|]. cbn [firstn]. rewrite qsum_cons, E. ring.
+Qed.
+Lemma prefix_sums_last l : forall s, l <> [] -> exists x, In x (prefix_sums s l) /\ x == s + qsum l.
+Proof.
+  induction l as [|d l IH]; intros s H; [congruence|]. cbn [prefix_sums]. destruct l as [|d' l'].
+  - exists (s + d). split; [now left|]. rewrite qsum_cons, qsum_nil. ring.
+  - destruct (IH (s + d)) as (x & Hx & E); [discriminate|]. exists x. split; [now right|]. rewrite E, (qsum_cons d). ring.
+Qed.
+Lemma in_firstn' {A} k (l : list A) x : In x (firstn k l) -> In x l.
+Proof. intro H. rewrite <- (firstn_skipn k l). apply in_or_app. now left. Qed.
+Lemma in_skipn' {A} k (l : list A) x : In x (skipn k l) -> In x l.
+Proof. intro H. rewrite <- (firstn_skipn k l). apply in_or_app. now right. Qed.
+Lemma qsum_firstn_skipn k l : qsum l == qsum (firstn k l) + qsum (skipn k l).
+Proof. rewrite <- qsum_app, firstn_skipn. reflexivity. Qed.
+Lemma qsum_nonpos l : (forall x, In x l -> x <= 0) -> qsum l <= 0.
+Proof.
+  induction l as [|a l IH]; intro H; [rewrite qsum_nil; lra|]. rewrite qsum_cons.
+  assert (a <= 0) by (apply H; now left). assert (qsum l <= 0) by (apply IH; intros; apply H; now right). lra.
+Qed.
+
+Definition deltas_of (no : nat) (rows : list (Z * list Q)) : list Q :=
+  map (bin_delta no) (map (bin_mom no rows) (keys_of rows)).
+Lemma x0_same no (l : list row) o : (o < no)%nat -> (0 < no)%nat -> m_x0 (vget o (vmom_of no l)) == m_x0 (vget 0 (vmom_of no l)).
+Proof.
+  intros Ho H0. rewrite !vget_vmom_of by assumption.
+  destruct (mom_of1_fields (proj o l)) as (A0 & _). destruct (mom_of1_fields (proj 0 l)) as (B0 & _).
+  rewrite A0, B0, !ms_f1_length. unfold proj. now rewrite !map_length.
+Qed.
+(* score of a bin = its squared residuals plus its (non-positive) delta *)
+Lemma vbin_rss_delta no rows k : (0 < no)%nat -> In k (keys_of rows) ->
+  vbin_rss no (bin_mom no rows k) == vbin_r2 no (bin_mom no rows k) + bin_delta no (bin_mom no rows k)
+  /\ bin_delta no (bin_mom no rows k) <= 0.
+Proof.
+  intros H0 Hk. pose proof (bin_x0_pos no rows k 0 H0 Hk) as Hp. set (v := bin_mom no rows k) in *. split.
+  - unfold vbin_rss, vbin_r2, bin_delta, tab.
+    assert (E : qsum (map (fun o => bin_rss (vget o v)) (seq 0 no))
+                == qsum (map (fun o => m_r2 (vget o v) + (- / m_x0 (vget 0 v)) * (m_r1 (vget o v) * m_r1 (vget o v))) (seq 0 no))).
+    { apply qsum_map_eq. intros o Ho. apply in_tab_iff in Ho. unfold bin_rss. unfold v, bin_mom. rewrite (x0_same no _ o Ho H0).
+      fold (bin_mom no rows k). fold v. field. lra. }
+    rewrite E, qsum_map_plus, qsum_map_scal. field. lra.
+  - unfold bin_delta.
+    assert (0 <= qsum (tab no (fun o => m_r1 (vget o v) * m_r1 (vget o v)))) by (apply qsum_map_nonneg; intros; apply sq_nonneg).
+    assert (0 <= qsum (tab no (fun o => m_r1 (vget o v) * m_r1 (vget o v))) / m_x0 (vget 0 v)) by (apply Qle_shift_div_l; lra). lra.
+Qed.
+Lemma deltas_nonpos no rows d : (0 < no)%nat -> In d (deltas_of no rows) -> d <= 0.
+Proof.
+  intros H0 H. unfold deltas_of in H. rewrite map_map in H. apply in_map_iff in H. destruct H as (k & <- & Hk).
+  now apply vbin_rss_delta.
+Qed.
+Lemma dense_rss_deltas no (c : col Z) : (0 < no)%nat ->
+  dense_rss no c == miss_rss no c + qsum (map (vbin_r2 no) (map (bin_mom no (present c)) (keys_of (present c))))
+                    + qsum (deltas_of no (present c)).
+Proof.
+  intro H0. unfold dense_rss, deltas_of. rewrite !map_map.
+  assert (E : qsum (map (fun k => vbin_rss no (bin_mom no (present c) k)) (keys_of (present c)))
+              == qsum (map (fun k => vbin_r2 no (bin_mom no (present c) k) + bin_delta no (bin_mom no (present c) k)) (keys_of (present c)))).
+  { apply qsum_map_eq. intros k Hk. now apply vbin_rss_delta. }
+  rewrite E, qsum_map_plus. ring.
+Qed.
+
+(* every partial sum of the k-best sweep is at least the dense score; the full sum equals it *)
+Lemma kbest_seq_ge_dense no maxk (c : col Z) x : (0 < no)%nat -> In x (kbest_rss_seq no maxk c) -> dense_rss no c <= x.
+Proof.
+  intros H0 H. unfold kbest_rss_seq in H. fold (deltas_of no (present c)) in H. apply prefix_sums_in in H. destruct H as (k & _ & E).
+  set (ds := isort (fun d => d) (deltas_of no (present c))) in *.
+  set (kmax := Z.to_nat (src_c10_max_kbest maxk (Z.of_nat (length (map (bin_mom no (present c)) (keys_of (present c))))))) in *.
+  rewrite E, dense_rss_deltas by exact H0.
+  assert (P : qsum (deltas_of no (present c)) == qsum ds) by (apply qsum_perm, isort_perm).
+  assert (N : forall d, In d ds -> d <= 0).
+  { intros d Hd. apply (deltas_nonpos no (present c)); [exact H0|]. eapply Permutation_in; [symmetry; apply isort_perm | exact Hd]. }
+  rewrite P. rewrite (qsum_firstn_skipn kmax ds). rewrite (qsum_firstn_skipn k (firstn kmax ds)).
+  assert (qsum (skipn kmax ds) <= 0) by (apply qsum_nonpos; intros d Hd; apply N; eapply in_skipn'; exact Hd).
+  assert (qsum (skipn k (firstn kmax ds)) <= 0).
+  { apply qsum_nonpos. intros d Hd. apply N. eapply (in_firstn' kmax). eapply in_skipn'. exact Hd. }
+  lra.
+Qed.
+Lemma kbest_seq_full no maxk (c : col Z) : (0 < no)%nat -> (maxk < 1)%Z -> keys_of (present c) <> [] ->
+  exists x, In x (kbest_rss_seq no maxk c) /\ x == dense_rss no c.
+Proof.
+  intros H0 Hk Hne. unfold kbest_rss_seq. fold (deltas_of no (present c)).
+  set (ds := isort (fun d => d) (deltas_of no (present c))).
+  assert (L : length ds = length (map (bin_mom no (present c)) (keys_of (present c)))).
+  { unfold ds. rewrite <- (Permutation_length (isort_perm _ _ _)). unfold deltas_of. now rewrite map_length. }
+  unfold src_c10_max_kbest. apply Z.ltb_lt in Hk. rewrite Hk. rewrite Nat2Z.id, <- L, firstn_all.
+  destruct (prefix_sums_last ds (miss_rss no c + qsum (map (vbin_r2 no) (map (bin_mom no (present c)) (keys_of (present c)))))) as (x & Hx & E).
+  { intro E. rewrite E in L. cbn in L. rewrite map_length in L. destruct (keys_of (present c)); [congruence|discriminate]. }
+  exists x. split; [exact Hx|]. rewrite E, dense_rss_deltas by exact H0. apply Qplus_inj_l. symmetry. apply qsum_perm, isort_perm.
+Qed.
+Lemma kbest_seq_nil no maxk (c : col Z) : keys_of (present c) = [] -> kbest_rss_seq no maxk c = [].
+Proof. intro E. unfold kbest_rss_seq. rewrite E. cbn [map isort]. now rewrite firstn_nil. Qed.
+
+(* C10_kbest_optimal (RSS criterion): the k-best fit returns the minimum over the features with at least one present value of the
+   RSS of the best table -- the RSS sequence over k decreases to the dense score *)
+Lemma kbest_fit_optimal no floor maxk (cs : list (col Z)) : (0 < no)%nat -> (maxk < 1)%Z ->
+  match kbest_fit no floor maxk cs with
+  | Some s => (exists c T, In c cs /\ keys_of (present c) <> [] /\ s == clamp floor (rss_of no T c)) /\
+              (forall c T, In c cs -> keys_of (present c) <> [] -> s <= clamp floor (rss_of no T c))
+  | None => forall c, In c cs -> keys_of (present c) = []
+  end.
+Proof.
+  intros H0 Hk. unfold kbest_fit. pose proof (best_of_flat (kbest_cands no floor maxk) (fun x => x) cs) as H. rewrite map_id in H.
+  destruct (best_of (flat_map (kbest_cands no floor maxk) cs)) as [s|].
+  - destruct H as ((c & x & Hc & Hx & ->) & Hall).
+    assert (Low : forall c' T, In c' cs -> keys_of (present c') <> [] -> x <= clamp floor (rss_of no T c')).
+    { intros c' T Hc' Hne. destruct (kbest_seq_full no maxk c' H0 Hk Hne) as (y & Hy & Ey).
+      assert (Hy' : In (clamp floor y) (kbest_cands no floor maxk c')) by (unfold kbest_cands; now apply in_map).
+      specialize (Hall c' _ Hc' Hy'). destruct (dense_col_optimal no c') as (Hle & _).
+      pose proof (clamp_mono floor _ _ (Hle T)). rewrite (clamp_proper floor floor (Qeq_refl _) y _ Ey) in Hall. lra. }
+    split; [|exact Low].
+    assert (Hne : keys_of (present c) <> []).
+    { intro E. unfold kbest_cands in Hx. rewrite (kbest_seq_nil no maxk c E) in Hx. contradiction. }
+    destruct (dense_col_optimal no c) as (_ & T & ET). exists c, T. repeat split; [exact Hc|exact Hne|].
+    unfold kbest_cands in Hx. apply in_map_iff in Hx. destruct Hx as (y & <- & Hy).
+    pose proof (clamp_mono floor _ _ (kbest_seq_ge_dense no maxk c y H0 Hy)) as G.
+    specialize (Low c T Hc Hne). rewrite <- (clamp_proper floor floor (Qeq_refl _) _ _ ET) in Low.
+    rewrite <- (clamp_proper floor floor (Qeq_refl _) _ _ ET). lra.
+  - intros c Hc. specialize (H c Hc). destruct (keys_of (present c)) as [|k ks] eqn:E; [reflexivity|]. exfalso.
+    destruct (kbest_seq_full no maxk c H0 Hk) as (y & Hy & _); [rewrite E; discriminate|].
+    unfold kbest_cands in H. apply map_eq_nil in H. rewrite H in Hy. contradiction.
+Qed.
+
+(* discrete step: the table supported on one key *)
+Definition single (k0 : Z) (t : list Q) (k : Z) : list Q := if (k0 =? k)%Z then t else [].
+Lemma arss_zero m : arss m 0 0 == m_r2 m.
+Proof. unfold arss. ring. Qed.
+
+Lemma dstep_col_optimal no (c : col Z) : (0 < no)%nat -> keys_of (present c) <> [] ->
+  exists x, kbest_rss_seq no 1 c = [x] /\
+            (forall k0 t, x <= rss_of no (single k0 t) c) /\ (exists k0 t, x == rss_of no (single k0 t) c).
+Proof.
+  intros H0 Hne. unfold kbest_rss_seq. fold (deltas_of no (present c)).
+  set (rows := present c) in *. set (keys := keys_of rows) in *.
+  set (rss0 := miss_rss no c + qsum (map (vbin_r2 no) (map (bin_mom no rows) keys))).
+  assert (K1 : Z.to_nat (src_c10_max_kbest 1 (Z.of_nat (length (map (bin_mom no rows) keys)))) = 1%nat) by reflexivity.
+  rewrite K1. clear K1.
+  pose proof (isort_perm _ (fun d : Q => d) (deltas_of no rows)) as P.
+  pose proof (isort_sorted _ (fun d : Q => d) (deltas_of no rows)) as S.
+  destruct (isort (fun d => d) (deltas_of no rows)) as [|d ds] eqn:E.
+  { apply Permutation_sym, Permutation_nil in P. unfold deltas_of in P. fold keys in P. apply map_eq_nil, map_eq_nil in P. congruence. }
+  cbn [firstn prefix_sums]. exists (rss0 + d). split; [reflexivity|].
+  assert (Dmin : forall y, In y (deltas_of no rows) -> d <= y).
+  { intros y Hy. apply (Permutation_in _ P) in Hy. inversion S as [|? ? _ Hall]; subst. destruct Hy as [<-|Hy]; [lra|].
+    rewrite Forall_forall in Hall. apply (Hall y Hy). }
+  assert (Din : In d (deltas_of no rows)) by (apply (Permutation_in _ (Permutation_sym P)); now left).
+  assert (Dneg : d <= 0) by (now apply (deltas_nonpos no rows)).
+  (* the RSS of a single-key table, bin by bin *)
+  assert (Dec : forall k0 t, rss_of no (single k0 t) c
+             == miss_rss no c + qsum (map (fun k => qsum (tab no (fun o => arss (vget o (bin_mom no rows k)) 0 (rget o (single k0 t k))))) keys))
+    by (intros; apply rss_of_by_bins).
+  assert (Other : forall k0 t k, (k0 =? k)%Z = false ->
+             qsum (tab no (fun o => arss (vget o (bin_mom no rows k)) 0 (rget o (single k0 t k)))) == vbin_r2 no (bin_mom no rows k)).
+  { intros k0 t k Ek. unfold vbin_r2. apply qsum_tab_eq. intros o Ho. unfold single. rewrite Ek, rget_nil. apply arss_zero. }
+  assert (Sum : forall k0 (h : Z -> Q), qsum (map (fun k => vbin_r2 no (bin_mom no rows k) + (if (k0 =? k)%Z then h k else 0)) keys)
+             == qsum (map (vbin_r2 no) (map (bin_mom no rows) keys)) + (if in_dec Z.eq_dec k0 keys then h k0 else 0)).
+  { intros k0 h. rewrite qsum_map_plus, map_map, (qsum_indicator keys k0 h (keys_nodup rows)). reflexivity. }
+  split.
+  - intros k0 t. rewrite Dec.
+    assert (L : qsum (map (fun k => vbin_r2 no (bin_mom no rows k) + (if (k0 =? k)%Z then bin_delta no (bin_mom no rows k) else 0)) keys)
+                <= qsum (map (fun k => qsum (tab no (fun o => arss (vget o (bin_mom no rows k)) 0 (rget o (single k0 t k))))) keys)).
+    { apply qsum_map_le. intros k Hk. destruct (k0 =? k)%Z eqn:Ek.
+      - destruct (vbin_rss_delta no rows k H0 Hk) as (Ed & _). rewrite <- Ed. unfold vbin_rss. apply qsum_tab_le. intros o Ho.
+        apply bin_rss_min. now apply bin_x0_pos.
+      - rewrite (Other k0 t k Ek). lra. }
+    rewrite Sum in L. unfold rss0.
+    destruct (in_dec Z.eq_dec k0 keys) as [i|n].
+    + assert (d <= bin_delta no (bin_mom no rows k0)).
+      { apply Dmin. unfold deltas_of. rewrite map_map. apply in_map_iff. now exists k0. }
+      lra.
+    + lra.
+  - unfold deltas_of in Din. rewrite map_map in Din. apply in_map_iff in Din. destruct Din as (k0 & Ek0 & Hk0).
+    exists k0, (vec (fun o => mean_of (vget o (bin_mom no rows k0))) no). rewrite Dec.
+    assert (L : qsum (map (fun k => qsum (tab no (fun o => arss (vget o (bin_mom no rows k)) 0
+                                                  (rget o (single k0 (vec (fun o => mean_of (vget o (bin_mom no rows k0))) no) k))))) keys)
+                == qsum (map (fun k => vbin_r2 no (bin_mom no rows k) + (if (k0 =? k)%Z then bin_delta no (bin_mom no rows k) else 0)) keys)).
+    { apply qsum_map_eq. intros k Hk. destruct (k0 =? k)%Z eqn:Ek.
+      - apply Z.eqb_eq in Ek. subst k. destruct (vbin_rss_delta no rows k0 H0 Hk) as (Ed & _). rewrite <- Ed. unfold vbin_rss.
+        apply qsum_tab_eq. intros o Ho. unfold single. rewrite Z.eqb_refl, rget_vec by exact Ho. symmetry. apply bin_rss_mean.
+        pose proof (bin_x0_pos no rows k0 o Ho Hk). lra.
+      - rewrite (Other k0 _ k Ek). ring. }
+    rewrite L, Sum. destruct (in_dec Z.eq_dec k0 keys) as [_|n]; [|contradiction]. unfold rss0. rewrite Ek0. ring.
+Qed.
+
+(* C10_dstep_optimal: the discrete-step fit is the minimum over the features with a present value and over the tables that
+   predict one vector for one label set and zero elsewhere *)
+Lemma dstep_fit_optimal no floor (cs : list (col Z)) : (0 < no)%nat ->
+  match kbest_fit no floor 1 cs with
+  | Some s => (exists c k0 t, In c cs /\ keys_of (present c) <> [] /\ s == clamp floor (rss_of no (single k0 t) c)) /\
+              (forall c k0 t, In c cs -> keys_of (present c) <> [] -> s <= clamp floor (rss_of no (single k0 t) c))
+  | None => forall c, In c cs -> keys_of (present c) = []
+  end.
+Proof.
+  intros H0. unfold kbest_fit. pose proof (best_of_flat (kbest_cands no floor 1) (fun x => x) cs) as H. rewrite map_id in H.
+  destruct (best_of (flat_map (kbest_cands no floor 1) cs)) as [s|].
+  - destruct H as ((c & x & Hc & Hx & ->) & Hall).
+    assert (Hne : keys_of (present c) <> []).
+    { intro E. unfold kbest_cands in Hx. rewrite (kbest_seq_nil no 1 c E) in Hx. contradiction. }
+    split.
+    + destruct (dstep_col_optimal no c H0 Hne) as (y & Ey & _ & k0 & t & Et). exists c, k0, t. repeat split; [exact Hc|exact Hne|].
+      unfold kbest_cands in Hx. rewrite Ey in Hx. destruct Hx as [<-|[]]. now apply clamp_proper.
+    + intros c' k0 t Hc' Hne'. destruct (dstep_col_optimal no c' H0 Hne') as (y & Ey & Hle & _).
+      assert (Hy : In (clamp floor y) (kbest_cands no floor 1 c')) by (unfold kbest_cands; rewrite Ey; now left).
+      specialize (Hall c' _ Hc' Hy). pose proof (clamp_mono floor _ _ (Hle k0 t)). lra.
+  - intros c Hc. specialize (H c Hc). destruct (keys_of (present c)) as [|k ks] eqn:E; [reflexivity|]. exfalso.
+    destruct (dstep_col_optimal no c H0) as (y & Ey & _); [rewrite E; discriminate|].
+    unfold kbest_cands in H. rewrite Ey in H. discriminate.
+Qed.
+
+(* ======================================================================================================================== *)
+(* fitted learners: predict / split / scale / merge                                                                            *)
+(* ======================================================================================================================== *)
+Lemma rget_zeros no o : rget o (zeros no) == 0.
+Proof.
+  destruct (Nat.lt_ge_cases o no) as [H|H]; [unfold zeros; rewrite rget_tab by exact H; reflexivity|].
+  unfold rget, zeros. rewrite nth_overflow by (rewrite tab_length; exact H). reflexivity.
+Qed.
+Lemma predict_zero no w s o : (o < no)%nat ->
+  rget o (predict no w s (zeros no)) == match incr no w s with None => 0 | Some d => rget o d end.
+Proof.
+  intro Ho. unfold predict. destruct (incr no w s) as [d|]; [|apply rget_zeros]. rewrite rget_tab by exact Ho. rewrite rget_zeros. ring.
+Qed.
+
+(* C10_predict_additive: predict adds the sample's increment to whatever the outputs hold *)
+Lemma predict_additive no w s out o : (o < no)%nat ->
+  rget o (predict no w s out) == rget o out + rget o (predict no w s (zeros no)).
+Proof.
+  intro Ho. rewrite predict_zero by exact Ho. unfold predict. destruct (incr no w s) as [d|]; [|ring].
+  rewrite rget_tab by exact Ho. reflexivity.
+Qed.
+
+(* C10_missing_zero: a sample without a group (in particular: whose selected feature is missing) leaves the outputs untouched *)
+Definition feature_of (w : wl) : option nat :=
+  match w with
+  | WAffine f _ _ | WStump f _ _ _ | WHinge f _ _ _ _ | WTable f _ _ _ => Some f
+  | WTree _ _ => None
+  end.
+Lemma group_none_incr no w s : group w s = None <-> incr no w s = None.
+Proof.
+  destruct w as [f ww b|f thr lo hi|f thr d ww b|f hs h2t tb|nodes tb]; cbn [group incr].
+  - destruct (fget f s); split; congruence.
+  - destruct (fget f s); split; congruence.
+  - destruct (fget f s) as [|x|h]; try (split; congruence). destruct (Bool.eqb d (qlt x thr)); split; congruence.
+  - destruct (fget f s) as [|x|h]; try (split; congruence). destruct (find hs h); split; congruence.
+  - destruct (tree_group (S (length nodes)) nodes 0%Z s); split; congruence.
+Qed.
+Lemma missing_zero no w s out :
+  (group w s = None -> predict no w s out = out) /\
+  (forall f, feature_of w = Some f -> fget f s = FMiss -> group w s = None).
+Proof.
+  split.
+  - intro H. apply (group_none_incr no) in H. unfold predict. now rewrite H.
+  - intros f Hf Hm. destruct w; cbn in Hf; inversion Hf; subst; cbn [group]; now rewrite Hm.
+Qed.
+
+(* C10_split_table: the prediction of a sample is the table of its group *)
+Definition tables_of (w : wl) : list (list Q) :=
+  match w with
+  | WAffine _ ww b | WHinge _ _ _ ww b => [ww; b]
+  | WStump _ _ lo hi => [lo; hi]
+  | WTable _ _ _ tb | WTree _ tb => tb
+  end.
+Definition table_like (w : wl) : bool :=
+  match w with WStump _ _ _ _ | WTable _ _ _ _ | WTree _ _ => true | _ => false end.
+Lemma split_table no w s g : group w s = Some g ->
+  if table_like w then incr no w s = Some (znth g (tables_of w) [])
+  else g = 0%Z /\ exists f x, feature_of w = Some f /\ fget f s = FNum x /\
+                              incr no w s = Some (affine_pred no (znth 0%Z (tables_of w) []) (znth 1%Z (tables_of w) []) x).
+Proof.
+  destruct w as [f ww b|f thr lo hi|f thr d ww b|f hs h2t tb|nodes tb]; cbn [group incr table_like tables_of feature_of].
+  - destruct (fget f s) as [|x|h] eqn:Ef; try discriminate. intros [= <-]. split; [reflexivity|]. exists f, x. now rewrite Ef.
+  - destruct (fget f s) as [|x|h]; try discriminate. intros [= <-]. destruct (qlt x thr); reflexivity.
+  - destruct (fget f s) as [|x|h] eqn:Ef; try discriminate. destruct (Bool.eqb d (qlt x thr)); try discriminate.
+    intros [= <-]. split; [reflexivity|]. exists f, x. now rewrite Ef.
+  - destruct (fget f s) as [|x|h]; try discriminate. destruct (find hs h); try discriminate. now intros [= <-].
+  - destruct (tree_group (S (length nodes)) nodes 0%Z s); try discriminate. now intros [= <-].
+Qed.
+
+(* C10_tree_depth1_is_stump: with max_depth = 1 the root is terminal whatever the node size, and the tree built from the root stump
+   has the groups and the predictions of that stump *)
+Lemma tree_depth1_is_stump no f thr lo hi s out :
+  (forall size minsize, src_c10_tree_terminal_fit size minsize 0 1 = true) /\
+  group (tree_of_stump f thr lo hi) s = group (WStump f thr lo hi) s /\
+  predict no (tree_of_stump f thr lo hi) s out = predict no (WStump f thr lo hi) s out.
+Proof.
+  split; [|split].
+  - intros. unfold src_c10_tree_terminal_fit. apply orb_true_r.
+  - unfold tree_of_stump. cbn [group length tree_group]. unfold znth. cbn [Z.ltb Z.compare Z.to_nat nth n_feature n_thr n_next n_table].
+    destruct (fget f s) as [|x|h]; try reflexivity; destruct (qlt x thr); reflexivity.
+  - unfold predict, tree_of_stump. cbn [incr length tree_group]. unfold znth. cbn [Z.ltb Z.compare Z.to_nat nth n_feature n_thr n_next n_table].
+    destruct (fget f s) as [|x|h]; try reflexivity; destruct (qlt x thr); reflexivity.
+Qed.
+
+(* ---- scale ----------------------------------------------------------------------------------------------------------------- *)
+(* the factor applied to table i by wlearner::scale (index expression from the source) *)
+Definition sfac (sc : list Q) (i : Z) : Q := znth (src_c10_scale_index i (Z.of_nat (length sc))) sc 0.
+Lemma scale_tables_nth sc tables : forall a i, (i < length tables)%nat ->
+  nth i (map (fun it => map (fun x => x * sfac sc (fst it)) (snd it)) (combine (map Z.of_nat (seq a (length tables))) tables)) []
+  = map (fun x => x * sfac sc (Z.of_nat (a + i))) (nth i tables []).
+Proof.
+  induction tables as [|t tables IH]; intros a i Hi; [cbn in Hi; lia|].
+  cbn [length seq map combine]. destruct i as [|i]; cbn [nth fst snd].
+  - now rewrite Nat.add_0_r.
+  - rewrite IH by (cbn in Hi; lia). now rewrite Nat.add_succ_r.
+Qed.
+Lemma scale_tables_length sc tables : length (scale_tables sc tables) = length tables.
+Proof. unfold scale_tables, zseq. rewrite map_length, combine_length, map_length, seq_length. apply Nat.min_id. Qed.
+Lemma znth_scale_tables sc tables g :
+  znth g (scale_tables sc tables) [] = map (fun x => x * sfac sc g) (znth g tables []).
+Proof.
+  unfold znth. destruct (g <? 0)%Z eqn:E; [reflexivity|]. apply Z.ltb_ge in E.
+  destruct (Nat.lt_ge_cases (Z.to_nat g) (length tables)) as [H|H].
+  - change (scale_tables sc tables)
+      with (map (fun it => map (fun x => x * sfac sc (fst it)) (snd it)) (combine (map Z.of_nat (seq 0 (length tables))) tables)).
+    rewrite (scale_tables_nth sc tables 0 (Z.to_nat g) H). cbn [Nat.add]. now rewrite Z2Nat.id.
+  - rewrite !nth_overflow; [reflexivity|exact H|rewrite scale_tables_length; exact H].
+Qed.
+Lemma rget_map_scale k t : forall o, rget o (map (fun x => x * k) t) == rget o t * k.
+Proof.
+  induction t as [|a t IH]; intro o; [rewrite rget_nil; cbn [map]; rewrite rget_nil; ring|].
+  destruct o as [|o]; [reflexivity|]. apply IH.
+Qed.
+Lemma scale_two sc t0 t1 : scale_tables sc [t0; t1] = [map (fun x => x * sfac sc 0) t0; map (fun x => x * sfac sc 1) t1].
+Proof. reflexivity. Qed.
+
+(* C10_scale: scale keeps the groups and multiplies the prediction of a sample by the factor of its group *)
+Lemma scale_spec no sc w s o : (o < no)%nat -> (table_like w = false -> sfac sc 0 == sfac sc 1) ->
+  group (scale sc w) s = group w s /\
+  rget o (predict no (scale sc w) s (zeros no))
+  == (match group w s with Some g => sfac sc g | None => 1 end) * rget o (predict no w s (zeros no)).
+Proof.
+  intros Ho Haff. rewrite !predict_zero by exact Ho.
+  destruct w as [f ww b|f thr lo hi|f thr d ww b|f hs h2t tb|nodes tb]; cbn [scale]; rewrite ?scale_two; cbn [group incr].
+  - specialize (Haff eq_refl). destruct (fget f s) as [|x|h]; split; try reflexivity; try ring.
+    unfold affine_pred. rewrite !rget_tab by exact Ho. rewrite !rget_map_scale. rewrite <- Haff. ring.
+  - destruct (fget f s) as [|x|h]; split; try reflexivity; try ring.
+    destruct (qlt x thr); rewrite rget_map_scale; ring.
+  - specialize (Haff eq_refl). destruct (fget f s) as [|x|h]; split; try reflexivity; try ring.
+    destruct (Bool.eqb d (qlt x thr)); [|ring].
+    unfold affine_pred. rewrite !rget_tab by exact Ho. rewrite !rget_map_scale. rewrite <- Haff. ring.
+  - destruct (fget f s) as [|x|h]; split; try reflexivity; try ring.
+    destruct (find hs h) as [i|]; [|ring]. rewrite znth_scale_tables, rget_map_scale. ring.
+  - split; [reflexivity|]. destruct (tree_group (S (length nodes)) nodes 0%Z s) as [g|]; [|ring].
+    rewrite znth_scale_tables, rget_map_scale. ring.
+Qed.
+Lemma sfac_single k i : (0 <= i)%Z -> sfac [k] i = k.
+Proof.
+  intro H. unfold sfac, src_c10_scale_index. cbn [length Z.of_nat Pos.of_succ_nat]. replace (Z.min i (1 - 1)) with 0%Z by lia. reflexivity.
+Qed.
+Lemma sfac_own sc i : (0 <= i < Z.of_nat (length sc))%Z -> sfac sc i = znth i sc 0.
+Proof. intro H. unfold sfac, src_c10_scale_index. now replace (Z.min i (Z.of_nat (length sc) - 1)) with i by lia. Qed.
+
+(* ---- merge ----------------------------------------------------------------------------------------------------------------- *)
+Lemma zlist_eqb_eq a : forall b, zlist_eqb a b = true -> a = b.
+Proof.
+  induction a as [|x a IH]; intros [|y b] H; try discriminate; [reflexivity|]. cbn in H. apply andb_true_iff in H. destruct H as [E H].
+  apply Z.eqb_eq in E. subst. f_equal. now apply IH.
+Qed.
+Lemma rget_vadd a : forall b o, length a = length b -> rget o (vadd a b) == rget o a + rget o b.
+Proof.
+  induction a as [|x a IH]; intros [|y b] o H; try discriminate.
+  - unfold vadd. cbn [combine map]. rewrite rget_nil. ring.
+  - destruct o as [|o]; [reflexivity|]. apply (IH b o). now inversion H.
+Qed.
+Lemma same_dims_cons r a r' b : same_dims (r :: a) (r' :: b) = true -> length r = length r' /\ same_dims a b = true.
+Proof.
+  unfold same_dims. cbn [map zlist_eqb]. intro H. apply andb_true_iff in H. destruct H as [E H]. apply Z.eqb_eq in E. split; [lia|exact H].
+Qed.
+Lemma rget_tadd a : forall b (i : nat) o, same_dims a b = true ->
+  rget o (nth i (tadd a b) []) == rget o (nth i a []) + rget o (nth i b []).
+Proof.
+  induction a as [|r a IH]; intros [|r' b] i o H; try discriminate.
+  - unfold tadd. cbn [combine map]. destruct i; cbn [nth]; rewrite rget_nil; ring.
+  - apply same_dims_cons in H. destruct H as [L H]. destruct i as [|i]; [now apply rget_vadd|]. apply (IH b i o H).
+Qed.
+Lemma rget_znth_tadd a b g o : same_dims a b = true ->
+  rget o (znth g (tadd a b) []) == rget o (znth g a []) + rget o (znth g b []).
+Proof.
+  intro H. unfold znth. destruct (g <? 0)%Z; [rewrite rget_nil; ring|]. now apply rget_tadd.
+Qed.
+
+Definition pred0 (no : nat) (w : wl) (s : sample) (o : nat) : Q := rget o (predict no w s (zeros no)).
+Lemma try_merge_sum no a b a' s o : (o < no)%nat -> try_merge a b = Some a' ->
+  pred0 no a' s o == pred0 no a s o + pred0 no b s o.
+Proof.
+  intros Ho H. unfold pred0. rewrite !predict_zero by exact Ho.
+  destruct a as [f w bb|f thr lo hi|f thr d w bb|f hs h2t tb|nodes tb]; destruct b as [f' w' b'|f' thr' lo' hi'|f' thr' d' w' b'|f' hs' h2t' tb'|nodes' tb'];
+    cbn [try_merge] in H; try discriminate.
+  - destruct ((f =? f')%nat && same_dims [w; bb] [w'; b']) eqn:E; [|discriminate]. injection H as <-.
+    apply andb_true_iff in E. destruct E as [Ef Ed]. apply Nat.eqb_eq in Ef. subst f'.
+    apply same_dims_cons in Ed. destruct Ed as [L1 Ed]. apply same_dims_cons in Ed. destruct Ed as [L2 _].
+    cbn [incr]. destruct (fget f s) as [|x|h]; try ring. unfold affine_pred. rewrite !rget_tab by exact Ho.
+    rewrite !rget_vadd by assumption. ring.
+  - destruct (zlist_eqb hs hs' && zlist_eqb h2t h2t' && (f =? f')%nat && same_dims tb tb') eqn:E; [|discriminate]. injection H as <-.
+    apply andb_true_iff in E. destruct E as [E Ed]. apply andb_true_iff in E. destruct E as [E Ef]. apply andb_true_iff in E. destruct E as [Eh Em].
+    apply Nat.eqb_eq in Ef. apply zlist_eqb_eq in Eh. apply zlist_eqb_eq in Em. subst f' hs' h2t'.
+    cbn [incr]. destruct (fget f s) as [|x|h]; try ring. destruct (find hs h) as [i|]; [|ring]. now apply rget_znth_tadd.
+Qed.
+
+Definition psum (no : nat) (ws : list wl) (s : sample) (o : nat) : Q := qsum (map (fun w => pred0 no w s o) ws).
+Lemma merge_into_sum no s o : (o < no)%nat -> forall rest a,
+  let '(a', rest', _) := merge_into a rest in psum no (a' :: compact rest') s o == psum no (a :: compact rest) s o.
+Proof.
+  intro Ho. induction rest as [|[b|] rest IH]; intro a; cbn [merge_into].
+  - reflexivity.
+  - destruct (try_merge a b) as [a1|] eqn:E.
+    + specialize (IH a1). destruct (merge_into a1 rest) as [[a' t'] m]. cbn [compact]. rewrite IH. unfold psum. qs.
+      rewrite (try_merge_sum no a b a1 s o Ho E). ring.
+    + specialize (IH a). destruct (merge_into a rest) as [[a' t'] m]. cbn [compact]. unfold psum in *. revert IH. qs. intro IH. lra.
+  - specialize (IH a). destruct (merge_into a rest) as [[a' t'] m]. cbn [compact]. exact IH.
+Qed.
+Lemma merge_loop_sum no s o : (o < no)%nat -> forall fuel l, psum no (compact (merge_loop fuel l)) s o == psum no (compact l) s o.
+Proof.
+  intro Ho. induction fuel as [|fuel IH]; intro l; [reflexivity|]. cbn [merge_loop]. destruct l as [|[a|] t]; [reflexivity| |].
+  - pose proof (merge_into_sum no s o Ho t a) as M. destruct (merge_into a t) as [[a' t'] m]. destruct m; cbn [compact].
+    + rewrite <- M. unfold psum. qs. fold (psum no (compact (merge_loop fuel t')) s o). rewrite IH. reflexivity.
+    + exact M.
+  - cbn [compact]. apply IH.
+Qed.
+Lemma compact_some ws : compact (map Some ws) = ws.
+Proof. induction ws as [|w ws IH]; cbn; [reflexivity | now rewrite IH]. Qed.
+Lemma predict_all_sum no s o : (o < no)%nat -> forall ws out, rget o (predict_all no ws s out) == rget o out + psum no ws s o.
+Proof.
+  intro Ho. induction ws as [|w ws IH]; intro out; unfold predict_all; cbn [fold_left].
+  - unfold psum. qs. ring.
+  - fold (predict_all no ws s (predict no w s out)). rewrite IH, (predict_additive no w s out o Ho). unfold psum, pred0. qs. ring.
+Qed.
+(* C10_merge_sum: merging a list of learners leaves the sum of their predictions unchanged, for every sample and outputs *)
+Lemma merge_sum no ws s out o : (o < no)%nat ->
+  rget o (predict_all no (merge ws) s out) == rget o (predict_all no ws s out).
+Proof.
+  intro Ho. rewrite !predict_all_sum by exact Ho. unfold merge. rewrite merge_loop_sum by exact Ho. now rewrite compact_some.
+Qed.
+
+(* ---- per-thread caches + min_reduce: the chunking of the features does not change the score ----------------------------- *)
+Lemma chunks_concat {A} fuel n : forall l : list A, concat (chunks fuel n l) = l.
+Proof.
+  induction fuel as [|fuel IH]; intro l; cbn [chunks]; [cbn; apply app_nil_r|].
+  destruct l as [|a l]; [reflexivity|]. cbn [concat]. rewrite IH. apply firstn_skipn.
+Qed.
+Definition somes (l : list (option Q)) : list Q := flat_map (fun s => match s with Some x => [x] | None => [] end) l.
+Lemma min_reduce_best l : min_reduce l = best_of (somes l).
+Proof.
+  unfold min_reduce, best_of. generalize (@None Q). induction l as [|[x|] l IH]; intro b; cbn [fold_left somes flat_map app]; [reflexivity| |]; apply IH.
+Qed.
+Definition is_min (l : list Q) (r : Q) : Prop := In r l /\ forall x, In x l -> r <= x.
+Lemma best_of_min l : match best_of l with Some r => is_min l r | None => l = [] end.
+Proof. apply best_of_spec. Qed.
+
+Lemma fit_chunked_spec concurrency (percol : list (list Q)) :
+  match fit_chunked concurrency percol, best_of (concat percol) with
+  | Some a, Some b => a == b
+  | None, None => True
+  | _, _ => False
+  end.
+Proof.
+  unfold fit_chunked. set (n := Z.to_nat (src_c10_features_per_thread (Z.of_nat (length percol)) concurrency)).
+  set (chs := chunks (length percol) n percol). rewrite min_reduce_best.
+  assert (EL : concat percol = concat (concat chs)) by (unfold chs; now rewrite chunks_concat).
+  set (M := somes (map (fun ch => best_of (concat ch)) chs)).
+  assert (InM : forall m, In m M -> exists ch, In ch chs /\ best_of (concat ch) = Some m).
+  { intros m Hm. unfold M, somes in Hm. apply in_flat_map in Hm. destruct Hm as (s & Hs & Hm). apply in_map_iff in Hs.
+    destruct Hs as (ch & <- & Hch). exists ch. split; [exact Hch|]. destruct (best_of (concat ch)) as [y|]; [|contradiction].
+    destruct Hm as [<-|[]]. reflexivity. }
+  assert (MIn : forall ch m, In ch chs -> best_of (concat ch) = Some m -> In m M).
+  { intros ch m Hch E. unfold M, somes. apply in_flat_map. exists (Some m). split; [|now left]. apply in_map_iff. now exists ch. }
+  pose proof (best_of_min M) as HM. pose proof (best_of_min (concat percol)) as HL.
+  destruct (best_of M) as [a|], (best_of (concat percol)) as [b|].
+  - destruct HM as (Ha & HaM), HL as (Hb & HbL).
+    assert (a <= b).
+    { rewrite EL in Hb. apply in_concat in Hb. destruct Hb as (lch & Hlch & Hb). apply in_concat in Hlch. destruct Hlch as (ch & Hch & Hlch).
+      assert (Hbch : In b (concat ch)) by (apply in_concat; now exists lch).
+      pose proof (best_of_min (concat ch)) as Hc. destruct (best_of (concat ch)) as [m|] eqn:E; [|rewrite Hc in Hbch; contradiction].
+      destruct Hc as (_ & Hc). specialize (Hc b Hbch). specialize (HaM m (MIn ch m Hch E)). lra. }
+    assert (b <= a).
+    { apply HbL. destruct (InM a Ha) as (ch & Hch & E). pose proof (best_of_min (concat ch)) as Hc. rewrite E in Hc. destruct Hc as (Hc & _).
+      rewrite EL. apply in_concat in Hc. destruct Hc as (lch & Hl & Hc). apply in_concat. exists lch. split; [|exact Hc].
+      apply in_concat. now exists ch. }
+    lra.
+  - destruct HM as (Ha & _). destruct (InM a Ha) as (ch & Hch & E). pose proof (best_of_min (concat ch)) as Hc. rewrite E in Hc.
+    destruct Hc as (Hc & _). rewrite EL in HL. apply in_concat in Hc. destruct Hc as (lch & Hl & Hc).
+    assert (In a (concat (concat chs))) by (apply in_concat; exists lch; split; [apply in_concat; now exists ch | exact Hc]).
+    rewrite HL in H. contradiction.
+  - destruct HL as (Hb & _). rewrite EL in Hb. apply in_concat in Hb. destruct Hb as (lch & Hlch & Hb). apply in_concat in Hlch.
+    destruct Hlch as (ch & Hch & Hlch). assert (Hbch : In b (concat ch)) by (apply in_concat; now exists lch).
+    pose proof (best_of_min (concat ch)) as Hc. destruct (best_of (concat ch)) as [m|] eqn:E; [|rewrite Hc in Hbch; contradiction].
+    pose proof (MIn ch m Hch E) as Hm. rewrite HM in Hm. contradiction.
+  - exact I.
+Qed.
+
+(* the thresholds are mid-points of two present values with no present value strictly in between *)
+Lemma midpoints_sound v : StronglySorted Qle v -> forall t, In t (midpoints v) ->
+  exists a b, In a v /\ In b v /\ a < b /\ t = (1 # 2) * (a + b) /\ forall x, In x v -> x <= a \/ b <= x.
+Proof.
+  induction 1 as [|a v Hs IH Ha]; intros t Ht; [contradiction|]. destruct v as [|b v']; [contradiction|].
+  change (midpoints (a :: b :: v')) with ((if qlt a b then [(1 # 2) * (a + b)] else []) ++ midpoints (b :: v')) in Ht.
+  apply in_app_or in Ht. destruct Ht as [Ht|Ht].
+  - destruct (qlt a b) eqn:E; [|contradiction]. apply qlt_true in E. destruct Ht as [<-|[]]. exists a, b.
+    repeat split; [now left | right; now left | exact E |]. intros x [<-|Hx]; [left; lra|]. right.
+    destruct Hx as [<-|Hx]; [lra|]. inversion Hs as [|? ? _ Hb]; subst. rewrite Forall_forall in Hb. now apply Hb.
+  - destruct (IH t Ht) as (a' & b' & Ha' & Hb' & Hlt & Et & Hbetween). exists a', b'. repeat split; [now right|now right|exact Hlt|exact Et|].
+    intros x [<-|Hx]; [|now apply Hbetween]. left. rewrite Forall_forall in Ha. now apply Ha.
+Qed.
+Lemma sorted_map_fst (l : list row) : StronglySorted (kle fst) l -> StronglySorted Qle (map fst l).
+Proof.
+  induction 1 as [|e l _ IHS He]; cbn [map]; [constructor|]. constructor; [exact IHS|]. rewrite Forall_map. exact He.
+Qed.
+Lemma thresholds_sound (c : col Q) t : In t (thresholds c) ->
+  exists a b, In a (map fst (present c)) /\ In b (map fst (present c)) /\ a < b /\ t = (1 # 2) * (a + b) /\
+              forall x, In x (map fst (present c)) -> x <= a \/ b <= x.
+Proof.
+  unfold thresholds. intro H.
+  assert (S : StronglySorted Qle (map fst (isort fst (present c)))) by (apply sorted_map_fst, isort_sorted).
+  assert (P : Permutation (map fst (present c)) (map fst (isort fst (present c)))) by (apply Permutation_map, isort_perm).
+  destruct (midpoints_sound _ S t H) as (a & b & Ha & Hb & Hlt & Et & Hbt). exists a, b.
+  repeat split; [eapply Permutation_in; [symmetry; exact P|exact Ha] | eapply Permutation_in; [symmetry; exact P|exact Hb] | exact Hlt | exact Et |].
+  intros x Hx. apply Hbt. eapply Permutation_in; [exact P|exact Hx].
+Qed.
+
+(* ... and every such mid-point is tried (values compared as rationals) *)
+Lemma midpoints_complete v : StronglySorted Qle v -> forall a b,
+  (exists a', In a' v /\ a' == a) -> (exists b', In b' v /\ b' == b) -> a < b -> (forall x, In x v -> x <= a \/ b <= x) ->
+  exists t, In t (midpoints v) /\ t == (1 # 2) * (a + b).
+Proof.
+  induction 1 as [|h v Hs IH Hh]; intros a b (a' & Ha' & Ea) (b' & Hb' & Eb) Hlt Hbt; [contradiction|].
+  rewrite Forall_forall in Hh.
+  destruct v as [|h2 v'].
+  { destruct Ha' as [<-|[]], Hb' as [<-|[]]. lra. }
+  change (midpoints (h :: h2 :: v')) with ((if qlt h h2 then [(1 # 2) * (h + h2)] else []) ++ midpoints (h2 :: v')).
+  assert (Hh2 : h <= h2) by (apply Hh; now left).
+  assert (Hmin : forall x, In x (h2 :: v') -> h2 <= x).
+  { intros x [<-|Hx]; [lra|]. inversion Hs as [|? ? _ Hall]; subst. rewrite Forall_forall in Hall. now apply Hall. }
+  assert (Hha : h <= a) by (destruct Ha' as [<-|Ha']; [lra | specialize (Hh a' Ha'); lra]).
+  assert (Hb'' : In b' (h2 :: v')) by (destruct Hb' as [<-|Hb']; [lra | exact Hb']).
+  assert (Tail : (exists a'', In a'' (h2 :: v') /\ a'' == a) -> exists t, In t (midpoints (h2 :: v')) /\ t == (1 # 2) * (a + b)).
+  { intro Ha''. apply IH; [exact Ha'' | now exists b' | exact Hlt | intros x Hx; apply Hbt; now right]. }
+  destruct (qlt h h2) eqn:E.
+  - apply qlt_true in E. destruct (Qlt_le_dec h a) as [L|L].
+    + destruct Tail as (t & Ht & Et).
+      { destruct Ha' as [<-|Ha']; [lra|]. now exists a'. }
+      exists t. split; [apply in_or_app; now right | exact Et].
+    + (* h == a: the first gap is the one between a and b *)
+      assert (h == a) by lra.
+      assert (b <= h2) by (destruct (Hbt h2 (or_intror (or_introl eq_refl))); lra).
+      assert (h2 <= b) by (specialize (Hmin b' Hb''); lra).
+      exists ((1 # 2) * (h + h2)). split; [apply in_or_app; left; now left|]. lra.
+  - apply qlt_false in E. destruct Tail as (t & Ht & Et).
+    { destruct Ha' as [<-|Ha']; [exists h2; split; [now left | lra] | now exists a']. }
+    exists t. split; [apply in_or_app; now right | exact Et].
+Qed.
+Lemma thresholds_complete (c : col Q) a b :
+  In a (map fst (present c)) -> In b (map fst (present c)) -> a < b ->
+  (forall x, In x (map fst (present c)) -> x <= a \/ b <= x) ->
+  exists t, In t (thresholds c) /\ t == (1 # 2) * (a + b).
+Proof.
+  intros Ha Hb Hlt Hbt. unfold thresholds.
+  assert (P : Permutation (map fst (present c)) (map fst (isort fst (present c)))) by (apply Permutation_map, isort_perm).
+  apply midpoints_complete; [apply sorted_map_fst, isort_sorted | exists a; split; [eapply Permutation_in; eassumption | reflexivity]
+                            | exists b; split; [eapply Permutation_in; eassumption | reflexivity] | exact Hlt |].
+  intros x Hx. apply Hbt. eapply Permutation_in; [symmetry; exact P | exact Hx].
 Qed.
